@@ -83,5 +83,32 @@ pub fn run(o: &Opts) -> Report {
         let model = driver_batch(&o.driver, &reqs, o.par);
         for ((req, m), i) in reqs.iter().zip(model.iter()).zip(impls.iter()) { if m != i { rep.disagree("parse", req, m, i); } }
     }
+    {
+        // a started hyphen-accepting multi-value positional keeps precedence over known short flags
+        use crate::pcorr::*;
+        let mk = |trailing: bool| { let mut c = CmdS { name: "prog".into(), ..Default::default() };
+            c.args.push(ArgS { id: "verbose".into(), short: Some('v'), long: Some("verbose".into()), action: Some("setTrue"), ..Default::default() });
+            c.args.push(ArgS { id: "quiet".into(), short: Some('q'), action: Some("count"), ..Default::default() });
+            c.args.push(ArgS { id: "cmd".into(), num_vals: Some((1, None)), allow_hyphen: true, trailing_var_arg: trailing, ..Default::default() }); c };
+        let mut cases: Vec<(CmdS, Vec<Vec<u8>>, Expect)> = vec![];
+        for tr in [false, true] {
+            cases.push((mk(tr), bv(&["prog", "ls", "-v", "dir"]), Box::new(|m| { want_occs(m, &[], "cmd", &[&["ls", "-v", "dir"]])?; want_source(m, "verbose", Some(clap::parser::ValueSource::DefaultValue)) })));
+            cases.push((mk(tr), bv(&["prog", "ls", "-vq", "--verbose", "-q"]), Box::new(|m| want_occs(m, &[], "cmd", &[&["ls", "-vq", "--verbose", "-q"]]))));
+            cases.push((mk(tr), bv(&["prog", "-v", "ls", "-q"]), Box::new(|m| { want_occs(m, &[], "cmd", &[&["ls", "-q"]])?; want_source(m, "verbose", Some(clap::parser::ValueSource::CommandLine)) })));
+        }
+        run_expect(&mut rep, o, "hyphen-positional-loses-a-value-to-a-known-flag", cases);
+        // with `dont_delimit_trailing_values` every value after `--` stays whole, not only the last one
+        let mk2 = || { let mut c = CmdS { name: "prog".into(), ..Default::default() };
+            c.settings.dont_delimit_trailing_values = true;
+            c.args.push(ArgS { id: "verbose".into(), short: Some('v'), action: Some("setTrue"), ..Default::default() });
+            c.args.push(ArgS { id: "items".into(), num_vals: Some((0, None)), delim: Some(','), ..Default::default() }); c };
+        let cases2: Vec<(CmdS, Vec<Vec<u8>>, Expect)> = vec![
+            (mk2(), bv(&["prog", "-v", "--", "c,d", "e,f"]), Box::new(|m| want_occs(m, &[], "items", &[&["c,d", "e,f"]]))),
+            (mk2(), bv(&["prog", "--", "a,b", "c", "d,e", "f"]), Box::new(|m| want_occs(m, &[], "items", &[&["a,b", "c", "d,e", "f"]]))),
+            (mk2(), bv(&["prog", "a,b", "c,d"]), Box::new(|m| want_occs(m, &[], "items", &[&["a", "b", "c", "d"]]))),
+        ];
+        run_expect(&mut rep, o, "trailing-value-split-at-the-delimiter", cases2);
+    }
+    crate::pcorr::run_generic(&mut rep, o, 0xC02);
     rep
 }
